@@ -5,6 +5,10 @@ import (
 	"testing"
 	"time"
 
+	simplefixgo "github.com/b2broker/simplefix-go"
+	"github.com/b2broker/simplefix-go/session"
+	"github.com/b2broker/simplefix-go/utils"
+
 	"pgregory.net/rapid"
 
 	"verif/harness/evid"
@@ -18,6 +22,7 @@ type C15Case struct {
 	Script
 	Ending     string `json:"ending"`      // peer-logout | local-logout | stop
 	AnswerKind string `json:"answer_kind"` // never | immediately | half | just-before | after
+	AppHandler string `json:"app_handler"` // the application's own EventLogout handler: none | true | false (its return value)
 	EndStep    int    `json:"end_step"`    // index of the peer Logout / local Logout / Stop step
 	AnswerStep int    `json:"answer_step"` // index of the peer's answering Logout (-1: none)
 }
@@ -33,6 +38,7 @@ func genC15(t *rapid.T) *C15Case {
 	c := &C15Case{AnswerStep: -1}
 	c.Cfg = cfg
 	c.Ending = rapid.SampledFrom([]string{"peer-logout", "local-logout", "stop", "stop", "stop"}).Draw(t, "ending")
+	c.AppHandler = rapid.SampledFrom([]string{"none", "none", "true", "false"}).Draw(t, "appHandler")
 	add := func(s rig.Step) int { c.Steps = append(c.Steps, s); return len(c.Steps) - 1 }
 	filler := func(n int, lbl string) {
 		for i := 0; i < n; i++ {
@@ -63,10 +69,18 @@ func genC15(t *rapid.T) *C15Case {
 			add(rig.Step{Op: "advance", Dt: rapid.Int64Range(1, 5e9).Draw(t, "waitDt")})
 		}
 		c.AnswerKind = "answered"
+		if rapid.IntRange(0, 1).Draw(t, "reactiveLogout") == 0 {
+			// the peer answers the instant it sees the Logout on the wire
+			c.Steps = c.Steps[:c.EndStep+1]
+			c.AnswerKind = "reactive"
+			c.AnswerStep = c.EndStep
+			g.inSeq += 1
+			break
+		}
 		c.AnswerStep = add(rig.Step{Op: "in", In: g.logout()})
 	case "stop":
 		c.EndStep = add(rig.Step{Op: "stop"})
-		kinds := []string{"never", "immediately", "half", "just-before", "after"}
+		kinds := []string{"never", "immediately", "reactive", "reactive", "half", "just-before", "after"}
 		if timeout <= time.Millisecond {
 			kinds = []string{"never", "after"} // no room strictly before the deadline
 		}
@@ -82,7 +96,10 @@ func genC15(t *rapid.T) *C15Case {
 		case "after":
 			off = timeout + time.Duration(rapid.Int64Range(1, 2e9).Draw(t, "late"))
 		}
-		if c.AnswerKind != "never" {
+		if c.AnswerKind == "reactive" {
+			c.AnswerStep = c.EndStep
+			g.inSeq += 1
+		} else if c.AnswerKind != "never" {
 			if off > 0 {
 				if rapid.Bool().Draw(t, "traffic") && off > 2 {
 					add(rig.Step{Op: "advance", Dt: int64(off / 2)})
@@ -111,7 +128,24 @@ func logouts(out []rig.Emitted) int {
 }
 
 func checkC15(c *C15Case, rec *evid.Rec) (vs []pbt.Violation) {
-	tr := rig.RunDirect(outerT, c.Cfg, c.Steps, nil, c.MaxHB)
+	hooks := &rig.Hooks{}
+	if c.AppHandler != "none" {
+		ret := c.AppHandler == "true"
+		hooks.AfterRun = func(h *simplefixgo.DefaultHandler, s *session.Session, log *rig.EventLog) {
+			s.OnChangeState(utils.EventLogout, func() bool { return ret })
+		}
+	}
+	if c.AnswerKind == "reactive" {
+		answered := false
+		hooks.OnWire = func(o rig.Out) []*rig.InMsg {
+			if o.Type == rig.TLogout && !answered {
+				answered = true
+				return []*rig.InMsg{{Type: rig.TLogout, Seq: "9999"}}
+			}
+			return nil
+		}
+	}
+	tr := rig.RunDirect(outerT, c.Cfg, c.Steps, hooks, c.MaxHB)
 	if tr.Trouble != "" {
 		return []pbt.Violation{pbt.V("harness", "%s", tr.Trouble)}
 	}
@@ -137,7 +171,7 @@ func checkC15(c *C15Case, rec *evid.Rec) (vs []pbt.Violation) {
 			vs = append(vs, pbt.V("local-logout-not-sent", "a local Logout() must send exactly one Logout, emitted:%s", showOut(end)))
 		}
 		ans := tr.Steps[c.AnswerStep]
-		if n := logouts(ans.Out); n != 0 {
+		if n := logouts(ans.Out); (c.AnswerStep != c.EndStep && n != 0) || (c.AnswerStep == c.EndStep && n != 1) {
 			vs = append(vs, pbt.V("second-logout", "the peer's answering Logout triggered another Logout:%s", showOut(ans)))
 		}
 		if n := count(ans.Events, "session:logout"); n != 1 {
@@ -158,7 +192,7 @@ func checkC15(c *C15Case, rec *evid.Rec) (vs []pbt.Violation) {
 			if at < deadline {
 				want, answered = at, true
 			}
-			if n := logouts(tr.Steps[c.AnswerStep].Out); n != 0 && at < deadline {
+			if n := logouts(tr.Steps[c.AnswerStep].Out); c.AnswerStep != c.EndStep && n != 0 && at < deadline {
 				vs = append(vs, pbt.V("second-logout", "the peer's answering Logout triggered another Logout:%s", showOut(tr.Steps[c.AnswerStep])))
 			}
 		}
@@ -177,6 +211,7 @@ func checkC15(c *C15Case, rec *evid.Rec) (vs []pbt.Violation) {
 	nontrivial := c.Ending != "stop" || (c.AnswerStep >= 0 && tr.Steps[c.AnswerStep].At < end.At+timeout)
 	rec.Case(evid.FPs(fmt.Sprintf("%s|%s|%s|%d|%d", c.Cfg.Role, c.Ending, c.AnswerKind, c.Cfg.CloseTimeoutMs, len(c.Steps))), nontrivial)
 	rec.Hist("ending:" + c.Ending + ":" + c.AnswerKind)
+	rec.Hist("app-logout-handler:" + c.AppHandler)
 	rec.Hist(fmt.Sprintf("close-timeout-ms=%d", c.Cfg.CloseTimeoutMs))
 	rec.Hist("role:" + c.Cfg.Role)
 	if rec.WantSample() && nontrivial {
